@@ -61,6 +61,17 @@ Theorem C08_include_latents : forall g lat x Z y,
 Proof. exact include_latents. Qed.
 Print Assumptions C08_include_latents.
 
+(* get_independencies(include_latents=incl): for every start node and observed tuple the code draws
+   (start not in observed), the asserted set is exactly the visible nodes other than start, outside
+   observed, that are d-separated from start given observed *)
+Theorem C08_independencies : forall g lat incl start observed v,
+  wf_graph g -> acyclic g -> In start (nodes g) -> ~ In start observed ->
+  (In v (dsep_vars g lat incl start observed) <->
+   In v (nodes g) /\ v <> start /\ (incl = true \/ ~ In v lat) /\ ~ In v observed /\
+   ~ dconnected g observed start v).
+Proof. exact dsep_vars_spec. Qed.
+Print Assumptions C08_independencies.
+
 (* _get_ancestors_of: exactly the nodes with a directed path into the set *)
 Theorem C08_ancestors : forall g src x, wf_graph g ->
   (In x (anc_of g src) <-> exists s, In s src /\ dpath g x s).
@@ -120,17 +131,18 @@ Print Assumptions C08_local_markov_sound.
 (* ================================================================== 3. minimal_dseparator *)
 
 (* ValueError exactly for adjacent end points *)
-Theorem C08_minsep_adjacent : forall g lat x y order,
-  minimal_dseparator g lat x y order = None <-> adjacent g x y = true.
+Theorem C08_minsep_adjacent : forall g lat x y lorder order,
+  minimal_dseparator g lat x y lorder order = None <-> adjacent g x y = true.
 Proof. exact minsep_adjacent_iff. Qed.
 Print Assumptions C08_minsep_adjacent.
 
-(* A returned separator s (any latent set, any iteration order of the removal loop): contains no
+(* A returned separator s (any latent set; any set-iteration order [lorder i] in pass i of the latent
+   replacement loop; any iteration order [order] of the removal loop): contains no
    latent node and neither end point, d-separates x and y IN g (path definition), and removing any
    single member reconnects them. *)
-Theorem C08_minsep_post : forall g lat x y order s,
+Theorem C08_minsep_post : forall g lat x y lorder order s,
   wf_graph g -> acyclic g -> In x (nodes g) ->
-  minimal_dseparator g lat x y order = Some (Some s) ->
+  minimal_dseparator g lat x y lorder order = Some (Some s) ->
   (forall u, In u s -> ~ In u lat) /\ ~ In x s /\ ~ In y s /\
   ~ dconnected g s x y /\
   (forall u, In u s -> dconnected g (remove1 u s) x y).
@@ -138,9 +150,9 @@ Proof. exact minsep_post. Qed.
 Print Assumptions C08_minsep_post.
 
 (* the same post-condition as the code evaluates it: with its own is_dconnected on the ancestral graph *)
-Theorem C08_minsep_post_ancestral : forall g lat x y order s,
+Theorem C08_minsep_post_ancestral : forall g lat x y lorder order s,
   wf_graph g -> acyclic g -> In x (nodes g) ->
-  minimal_dseparator g lat x y order = Some (Some s) ->
+  minimal_dseparator g lat x y lorder order = Some (Some s) ->
   let ag := ancestral_graph g [x; y] in
   (forall u, In u s -> ~ In u lat) /\
   incl s (anc_of g [x; y]) /\ ~ In x s /\ ~ In y s /\
@@ -159,16 +171,19 @@ Proof. exact is_dconnected_mono. Qed.
 Print Assumptions C08_dconnected_antitone_in_ancestral.
 
 (* without latent variables a separator is returned for every pair of distinct non-adjacent nodes *)
-Theorem C08_minsep_exists_no_latents : forall g x y order,
+Theorem C08_minsep_exists_no_latents : forall g x y lorder order,
   wf_graph g -> acyclic g -> In x (nodes g) -> In y (nodes g) -> x <> y ->
   adjacent g x y = false ->
-  exists s, minimal_dseparator g [] x y order = Some (Some s).
+  exists s, minimal_dseparator g [] x y lorder order = Some (Some s).
 Proof. exact minsep_exists. Qed.
 Print Assumptions C08_minsep_exists_no_latents.
 
-(* the latent-replacement loop ends latent-free within the model's fuel: more fuel changes nothing *)
-Theorem C08_minsep_latent_loop_terminates : forall g lat sep k, wf_graph g -> acyclic g ->
-  replace_latents (S (length (nodes g)) + k) g lat sep = replace_latents (S (length (nodes g))) g lat sep.
+(* the latent-replacement loop (whatever the iteration orders) ends within the model's fuel: more fuel
+   changes nothing, and the result is latent-free, i.e. the loop exited through its while-condition *)
+Theorem C08_minsep_latent_loop_terminates : forall g lat lorder sep k, wf_graph g -> acyclic g ->
+  replace_latents (S (length (nodes g)) + k) g lat lorder 0 sep
+  = replace_latents (S (length (nodes g))) g lat lorder 0 sep /\
+  forall u, In u (replace_latents (S (length (nodes g))) g lat lorder 0 sep) -> ~ In u lat.
 Proof. exact replace_latents_enough_fuel. Qed.
 Print Assumptions C08_minsep_latent_loop_terminates.
 
@@ -204,14 +219,20 @@ Definition ex_chain : digraph := {| nodes := [0; 1; 2; 3; 4]; edges := [(0, 1); 
 Example ex_chain_dag : wf_graph ex_chain /\ acyclic ex_chain.
 Proof. apply dag_dec. vm_compute. reflexivity. Qed.
 (* no latents: parents {1, 0}; 1 is redundant or 0 is, depending on the iteration order *)
-Example ex_chain_minsep : minimal_dseparator ex_chain [] 2 3 [1; 0] = Some (Some [0]) /\
-                          minimal_dseparator ex_chain [] 2 3 [0; 1] = Some (Some [1]).
+Example ex_chain_minsep : minimal_dseparator ex_chain [] 2 3 (fun _ => []) [1; 0] = Some (Some [0]) /\
+                          minimal_dseparator ex_chain [] 2 3 (fun _ => []) [0; 1] = Some (Some [1]).
 Proof. vm_compute. split; reflexivity. Qed.
 (* 1 latent: it is replaced by its parent 0 *)
-Example ex_chain_minsep_latent : minimal_dseparator ex_chain [1] 2 3 [] = Some (Some [0]).
+Example ex_chain_minsep_latent : minimal_dseparator ex_chain [1] 2 3 (fun _ => []) [] = Some (Some [0]).
 Proof. vm_compute. reflexivity. Qed.
-(* 0 latent: no separator of observed nodes exists, the code returns None *)
-Example ex_chain_minsep_none : minimal_dseparator ex_chain [0] 2 3 [] = Some None.
+(* 0 and 1 latent: no separator of observed nodes exists, the code returns None *)
+Example ex_chain_minsep_none : minimal_dseparator ex_chain [0; 1] 2 3 (fun _ => []) [] = Some None.
 Proof. vm_compute. reflexivity. Qed.
-Example ex_chain_adjacent : minimal_dseparator ex_chain [] 0 1 [] = None /\ adjacent ex_chain 2 3 = false.
+Example ex_chain_adjacent : minimal_dseparator ex_chain [] 0 1 (fun _ => []) [] = None /\ adjacent ex_chain 2 3 = false.
+Proof. vm_compute. split; reflexivity. Qed.
+
+(* one pass of the latent loop depends on the set-iteration order (0 -> 1 -> 2 with 0, 1 latent, separator
+   {0, 1}: visiting 0 first removes it and re-adds it as the parent of 1), the final separator does not *)
+Example ex_lat_step_order_dependent :
+  lat_step ex_chain [0; 1] [0; 1] [0; 1] = [0] /\ lat_step ex_chain [0; 1] [1; 0] [0; 1] = [].
 Proof. vm_compute. split; reflexivity. Qed.
